@@ -809,7 +809,11 @@ func makeDataConditionFilter(dataSources []func(s *stream) ([][2]int, [2][]byte,
 								if p.variables == nil {
 									p.variables = make(map[string]string)
 								}
-								p.variables[varName] = string(buffers[dir][p.streamOffset[dir]:][res[i]:res[i+1]])
+								value := ""
+								if res[i] >= 0 {
+									value = string(buffers[dir][p.streamOffset[dir]:][res[i]:res[i+1]])
+								} // else: the group took no part in the match (optional, or in an alternative not taken)
+								p.variables[varName] = value
 							}
 
 							if res[1] != 0 {
